@@ -289,8 +289,9 @@ def constructed(task):
                         codecs[0].rtcpFeedback = [RTCRtcpFeedback(type="nack"), RTCRtcpFeedback(type="nack", parameter="pli")]
                     if params:
                         # integer 0 and empty-string values are values, not flags
-                        codecs[0].parameters = {"minptime": 10, "useinbandfec": 0, "stereo": 0} if kind == "audio" else \
-                            {"x-flag": None, "level": "3", "x-empty": "", "max-fs": 0}
+                        # values may contain '=' themselves (base64 padding in sprop-parameter-sets / config)
+                        codecs[0].parameters = {"minptime": 10, "useinbandfec": 0, "stereo": 0, "config": "AQID=", "x": "a=b"} if kind == "audio" else \
+                            {"x-flag": None, "level": "3", "x-empty": "", "max-fs": 0, "sprop-parameter-sets": "Z0IAH5WoFAFuQA==,aM48gA=="}
                     if kind == "video" and fb:
                         codecs.append(RTCRtpCodecParameters(mimeType="video/rtx", clockRate=90000, payloadType=97 + i, parameters={"apt": 96 + i}))
                     m = SDP.MediaDescription(kind=kind, port=9 if not cands else 5000, profile="UDP/TLS/RTP/SAVPF", fmt=[c.payloadType for c in codecs])
@@ -314,13 +315,14 @@ def constructed(task):
                     m = SDP.MediaDescription(kind="application", port=9, profile="UDP/DTLS/SCTP", fmt=["webrtc-datachannel"])
                     m.rtp.muxId = str(i)
                     m.sctp_port = 5000
-                    m.sctpCapabilities = RTCSctpCapabilities(maxMessageSize=65536)
+                    # 0 is a value ("any size", RFC 8841), not an absent attribute
+                    m.sctpCapabilities = RTCSctpCapabilities(maxMessageSize=[65536, 0, 262144][ext])
                 else:
                     m = SDP.MediaDescription(kind="application", port=9, profile="DTLS/SCTP", fmt=[5000])
                     m.rtp.muxId = str(i)
                     m.sctpmap[5000] = "webrtc-datachannel 65535"
                     if params:
-                        m.sctpCapabilities = RTCSctpCapabilities(maxMessageSize=1024)
+                        m.sctpCapabilities = RTCSctpCapabilities(maxMessageSize=[1024, 0, 1][ext])
                 if host:
                     m.host = "198.51.100.7" if cands != 2 else "2001:db8::2"
                 m.ice = RTCIceParameters(usernameFragment="ufrag%d" % i, password="pwd%d" % i, iceLite=lite)
